@@ -1,0 +1,48 @@
+//go:build verif
+
+package tensor
+
+// C04 / C02 / C15: a slice is a window of its source's storage with its own access pattern (comment-only).
+
+//@ func tensor.array.sliceInto
+//@   props C04
+//@   config panics allowed
+//@   requires [sep] a != res
+//@   ensures [accepted] 0 <= i && i <= j && j <= cap(a.Raw) / rsize(a.t)
+//@   ensures [window] res.Raw.arr == a.Raw.arr && res.Raw.off == a.Raw.off + i * rsize(a.t) && len(res.Raw) == (j - i) * rsize(a.t)
+//@   ensures [source] a.Raw == old(a.Raw)
+//@   assigns res.Raw
+
+//@ func tensor.borrowDense
+//@   trusted
+//@   ensures [fresh] fresh(result)
+//@   ensures [clean] isnil(result.shape) && isnil(result.strides) && apIsZero(result.old) && isnil(result.old.shape) && isnil(result.old.strides) && isnil(result.transposeWith) && isnil(result.mask) && result.viewOf == uintptr(0)
+//@   assigns nothing
+
+//@ func tensor.Dense.setParentTensor
+//@   trusted
+//@   ensures [view] (t.viewOf == uintptr(0)) <==> isnil(d)
+//@   assigns t.viewOf
+
+//@ func tensor.Dense.Slice
+//@   props C02 C04 C15
+//@   let n = len(t.shape)
+//@   let sz = rsize(t.t)
+//@   let total = len(t.Raw) / rsize(t.t)
+//@   requires [dims] forall i :: 0 <= i && i < n ==> t.shape[i] >= 1 && t.strides[i] >= 0
+//@   requires [lens] len(t.strides) == n
+//@   requires [fits] maxOff(t.shape, t.strides, n) < total
+//@   requires [distinct] t.shape.arr != t.strides.arr
+//@   requires [mask_len] len(t.mask) == 0 || len(t.mask) == total
+//@   ensures [arity] len(slices) > n ==> err != nil
+//@   ensures [err_iff] len(slices) <= n ==> ((err != nil) <==> (exists i :: 0 <= i && i < n && !slValid(slAt(slices, i), t.shape[i])))
+//@   ensures [view_type] err == nil ==> typeis(retVal, "*tensor.Dense") && fresh(asptr("tensor.Dense", retVal))
+//@   ensures [alias] err == nil ==> asptr("tensor.Dense", retVal).Raw.arr == t.Raw.arr
+//@   ensures [alias_start] err == nil ==> asptr("tensor.Dense", retVal).Raw.off == t.Raw.off + old(startOff(t.AP, slices, n, n)) * sz
+//@   ensures [alias_len] err == nil ==> len(asptr("tensor.Dense", retVal).Raw) == (old(endCut(t.AP, slices, total, n, n)) - old(startOff(t.AP, slices, n, n))) * sz
+//@   ensures [same_type] err == nil ==> rkind(asptr("tensor.Dense", retVal).t) == rkind(t.t)
+//@   ensures [marked_view] err == nil ==> asptr("tensor.Dense", retVal).viewOf != uintptr(0)
+//@   ensures [mask_window] err == nil && len(t.mask) == total && total > 0 ==> asptr("tensor.Dense", retVal).mask.arr == t.mask.arr && asptr("tensor.Dense", retVal).mask.off == t.mask.off + old(startOff(t.AP, slices, n, n)) && len(asptr("tensor.Dense", retVal).mask) == old(endCut(t.AP, slices, total, n, n)) - old(startOff(t.AP, slices, n, n))
+//@   ensures [no_mask] err == nil && len(t.mask) != total ==> isnil(asptr("tensor.Dense", retVal).mask)
+//@   ensures [source] t.Raw == old(t.Raw) && t.shape == old(t.shape) && t.strides == old(t.strides) && unchanged(t.shape) && unchanged(t.strides) && unchanged(slices) && t.mask == old(t.mask)
+//@   assigns nothing
